@@ -72,13 +72,38 @@ Theorem counter_first_refuted :
 Proof. vm_compute. discriminate. Qed.
 Print Assumptions counter_first_refuted.
 
-(* user callable evaluated after the networks advanced (MeanFieldTempoBackend, still so) *)
+(* user callable evaluated after the networks advanced (MeanFieldTempoBackend before the repair) *)
 Theorem late_evaluation_refuted :
   let s0 := compute (list nat) [] log_step 1 (fresh _ []) in
   let s1 := fst (do_step_late (list nat) log_step (fun k => Nat.eqb k 2) s0) in
   net _ (compute (list nat) [] log_step 2 s1) <> net _ (compute (list nat) [] log_step 2 s0).
 Proof. vm_compute. discriminate. Qed.
 Print Assumptions late_evaluation_refuted.
+
+(* (4b) the mean-field back-end advances the networks of its species one after the other and evaluates user functions in
+   between (the bath correlations of species j after j species have been advanced, the field equation after all of them).
+   As repaired it puts the networks of the start of the step back before the exception leaves: for ANY number of species,
+   any step and any position j of the failure nothing has changed, and the repeated step is the failure-free step *)
+Theorem mean_field_failure_atomic :
+  forall (Sp : Type) (sp_step : Sp -> nat -> Sp) (k : nat) (l : list Sp) (j : nat),
+    fst (mf_step Sp sp_step true (Some j) k l) = l /\
+    mf_step Sp sp_step true None k (fst (mf_step Sp sp_step true (Some j) k l)) = (adv_all Sp sp_step k l, true).
+Proof. exact HistorySpec.mf_failure_atomic. Qed.
+Print Assumptions mean_field_failure_atomic.
+
+(* without the roll-back (the code before the repair) the repeated step advances the first j species twice *)
+Theorem mean_field_no_rollback :
+  forall (Sp : Type) (sp_step : Sp -> nat -> Sp) (k : nat) (l : list Sp) (j : nat),
+    fst (mf_step Sp sp_step false None k (fst (mf_step Sp sp_step false (Some j) k l))) =
+    adv_all Sp sp_step k (adv_upto Sp sp_step j k l).
+Proof. exact HistorySpec.mf_failure_no_rollback. Qed.
+Print Assumptions mean_field_no_rollback.
+
+Theorem mean_field_no_rollback_refuted :
+  fst (mf_step (list nat) log_step false None 2 (fst (mf_step (list nat) log_step false (Some 1) 2 [[1]; [1]])))
+  <> adv_all (list nat) log_step 2 [[1]; [1]].
+Proof. vm_compute. discriminate. Qed.
+Print Assumptions mean_field_no_rollback_refuted.
 
 (* every call takes last-first further steps (PtTempo / GibbsTempo before the repair) *)
 Theorem repeat_advances_refuted :
